@@ -39,7 +39,7 @@ def extract(ctx):
     ro, _ = er.block(r'static\s+t_tuple\s+reorder\s*\(\s*const\s+t_tuple&\s*t\s*\)\s*\{', semi=False)
     wtext = '\n'.join(wr) + '\n' + strip_comments(ro)
     wtext, n14 = re.subn(r'ind\.template\s+getBoundaries<\s*(\d)\s*>\(', r'ind.getBoundaries_\1(', wtext)
-    wtext, n2 = re.subn(r'\bauto\s+r\b', 'range<vx_iter> r', wtext)
+    wtext, n2 = re.subn(r'\bauto\s+(\w+)\s*=\s*ind\.', r'range<vx_iter> \1 = ind.', wtext)
     log['R14 ind.template getBoundaries<k>( -> ind.getBoundaries_k('] = n14
     log['R2 auto r -> range<vx_iter> (the scaffold range type)'] = n2
     if n14 != 3 or n2 != 3:
@@ -53,7 +53,7 @@ def extract(ctx):
     ftext = '\n'.join(facs)
     ftext, nf = re.subn(r'equivalencePartition\.find\(\s*\{\s*(sds\.findNode\(\w+\))\s*,\s*nullptr\s*\}\s*\)', r'equivalencePartition.vx_find(\1)', ftext)
     log['R8 equivalencePartition.find({rep, nullptr}) -> equivalencePartition.vx_find(rep) (scaffold cache: reading it asserts that it has been regenerated)'] = nf
-    ftext, na = re.subn(r'\bauto\s+found\b', 'vx_piter found', ftext)
+    ftext, na = re.subn(r'\bauto\s+(\w+)\s*=\s*equivalencePartition\.', r'vx_piter \1 = equivalencePartition.', ftext)
     log['R2 auto found -> vx_piter (scaffold cache iterator)'] = na
     ftext, ns = re.subn(r'\s*&&\s*"[^"]*"\s*\)', ')', ftext)
     log['R5 message strings in assert(c && "...") dropped'] = ns
